@@ -256,6 +256,7 @@ func CheckC18(r *core.Run) {
 	if len(traces) > 0 {
 		r.AddSample(map[string]interface{}{"path": traces[len(traces)/2].Meta, "observed": traces[len(traces)/2].Events})
 	}
+	runSelfTestN(r, "PathLockTrace", "PathLockTrace.cfg", traces, pathLockMutants())
 	rej := r.Judge(core.JudgeOpts{Module: "PathLockTrace", Config: "PathLockTrace.cfg", Timeout: 10 * time.Minute, HeapMB: 2048}, traces)
 	for _, d := range r.TakeDevs() {
 		name := d.Kind[len("dev:"):]
